@@ -132,7 +132,7 @@ def audit(prop, thorough=False):
     out = r.stdout + r.stderr
     cur = None
     # output: 'NAME' depends on axioms: [a, b]   |  'NAME' does not depend on any axioms
-    for m in re.finditer(r"'([^']+)' (does not depend on any axioms|depends on axioms: \[([^\]]*)\])", out.replace("\n", " ")):
+    for m in re.finditer(r"'(\S+?)' (does not depend on any axioms|depends on axioms: \[([^\]]*)\])", out.replace("\n", " ")):
         nm = m.group(1)
         axs = [] if m.group(3) is None else [a.strip() for a in m.group(3).split(",") if a.strip()]
         res["axioms"][nm] = axs
